@@ -456,6 +456,22 @@ def search_failing_input(ctx, results, oracle, profiles, deep_done):
     ctx.log('correspondence mismatch: searching %d continuations for a failing input' % len(cont))
     run_corr(ctx, cont, oracle)
     ctx.note('failing_input_search', {'continuations': len(cont), 'found': ctx.nviol > 0})
+    if not ctx.nviol:
+        # (a') histories in which the database refuses a run id during a
+        # dispatch (oracle only): the window between a release and the
+        # bookkeeping that follows it in farm.dispatch
+        fcases = [{'seed': '%d:faultsearch:%d' % (ctx.seed, i), 'nev': 50, 'profile': 'fault',
+                   'nalg': 6 if i % 3 else 8, 'shape': 'fan' if i % 2 else 'random'} for i in range(200)]
+        out = ctx.harness('drive_sched.py', {'cases': fcases})
+        for c, r in zip(fcases, out['cases']):
+            r['seed'] = c['seed']
+            for kind, fields, what, step in oracle(r):
+                ctx.violation(kind, fields, what, {'source': 'oracle (fault history)',
+                                                  'step': step, 'case': strip(r, step)})
+            if ctx.nviol:
+                break
+        ctx.cov['failing_input_search']['fault_histories'] = len(fcases)
+        ctx.cov['failing_input_search']['found'] = ctx.nviol > 0
     if ctx.nviol or deep_done:
         return
     cases = []
